@@ -97,3 +97,23 @@ pub proof fn lemma_chunks_exact(len: int, k: int, n: int, i: int)
         vstd::arithmetic::mul::lemma_mul_is_distributive_add_other_way(k, i, 1);
     }
 }
+
+pub proof fn lemma_chunk_bounds(len: int, k: int, i: int)
+    requires
+        k > 0,
+        len >= 0,
+        0 <= i < (if len % k == 0 { len / k } else { len / k + 1 }),
+    ensures
+        i * k < len,
+        0 <= i * k,
+{
+    vstd::arithmetic::div_mod::lemma_fundamental_div_mod(len, k);
+    vstd::arithmetic::mul::lemma_mul_inequality(i, len / k, k);
+    vstd::arithmetic::mul::lemma_mul_is_commutative(k, len / k);
+    vstd::arithmetic::mul::lemma_mul_nonnegative(i, k);
+    if len % k != 0 && i == len / k {
+    } else {
+        vstd::arithmetic::mul::lemma_mul_inequality(i + 1, len / k, k);
+        vstd::arithmetic::mul::lemma_mul_is_distributive_add_other_way(k, i, 1);
+    }
+}
